@@ -126,6 +126,7 @@ def c19(A, ctx, tier):
     blockpen.r_proxfoc_block(A, ctx, dict(floor=12), rule="R-PROX-ZEROWEIGHT-BLOCK", parts=("nonneg",))
     domain.r_target_domain(A, ctx, dict(floor=2))
     ctx.assume("finiteness under overflow and rank-deficient non-zero designs are not decided")
+    domain.r_blockbound(A, ctx, dict(floor=1))
     return dict(explanation="degenerate data: every division by a data-derived "
                 "magnitude in solver code is dominated by a non-zero fact; every loop is "
                 "bounded", trusted_base=TB)
@@ -373,6 +374,7 @@ def c09(A, ctx, tier):
     kernels.r_zeroblock(A, ctx, {})
     ctx.assume("accuracy of the power method in spectral_norm is numerical and not decided; "
                "spectral norms are opaque atoms keyed by the matrix they are taken of")
+    domain.r_blockbound(A, ctx, dict(floor=1))
     return dict(explanation="coordinate / group / global Lipschitz constants are lifted and "
                 "compared with sum_i X_ij^2 h_i, ||X_g||^2 h, ||diag(sqrt h) X||^2 where h is the "
                 "lifted (constant) Hessian or its tabled supremum; larger constants are accepted, "
